@@ -83,18 +83,36 @@ class Model:
         self.version += 1
         if getattr(self, "serde", None) is not None:
             # with a serializer the server holds the serialized form and the flags - the caller's explicit flags if given (0 too),
-            # else the serializer's - and a read hands back what the serializer makes of that pair
-            payload, f = self.serde.serialize(k, v)
-            v = payload.encode("ascii") if isinstance(payload, str) else payload
+            # else the ones the python-memcache convention gives the value's type - and a read hands back what the convention
+            # makes of that pair. The serialized form is computed HERE (not by the library's serializer, which is under test):
+            # bytes as they are, str as UTF-8 (flag 16), an exact int in decimal (flag 2), anything else pickled (flag 1)
+            import pickle
+            orig = v
+            if type(v) is bytes:
+                payload, f = v, 0
+            elif type(v) is str:
+                payload, f = v.encode("utf-8"), 16
+            elif type(v) is int:
+                payload, f = b"%d" % v, 2
+            else:
+                payload, f = pickle.dumps(v, pickle.HIGHEST_PROTOCOL), 1
+            v = payload
             self.item_flags[k] = flags if flags is not None else f
+            if not hasattr(self, "orig"):
+                self.orig = {}
+            self.orig[k] = (payload, f, orig)
         self.d[k] = [v, 0, self._exp(e), self.version, self.clock.now]
 
     def _out(self, k, raw):
         if getattr(self, "serde", None) is None:
             return raw
-        # what the python-memcache flag convention says a stored pair means (written here, not taken from the library): 0 bytes,
-        # 1 a pickle, 2 / 4 a decimal number (memcached pads a counter it shortened with blanks), 16 UTF-8 text
         f = self.item_flags.get(k, 0)
+        # stored with its own type's flags and not rewritten since: the caller gets back the value it stored
+        o = getattr(self, "orig", {}).get(k)
+        if o is not None and o[0] == raw and o[1] == f:
+            return o[2]
+        # otherwise what the flag convention says the stored pair means: 0 bytes, 1 a pickle, 2 / 4 a decimal number (memcached
+        # pads a counter it shortened with blanks), 16 UTF-8 text
         if f == 0:
             return raw
         if f & 1:
